@@ -17,6 +17,7 @@ import (
 func init() { core.Register("C17", checkC17) }
 
 type c17ev struct {
+	Tag    string // value the layers above put into the context
 	Layer  int // -1 = base channel
 	Kind   string
 	Method string
@@ -37,12 +38,12 @@ type fakeBase struct {
 }
 
 func (f *fakeBase) Invoke(ctx context.Context, method string, req, reply interface{}, opts ...grpc.CallOption) error {
-	f.rec.evs = append(f.rec.evs, c17ev{Layer: -1, Kind: "unary", Method: method, Req: req, Reply: reply, Opts: opts})
+	f.rec.evs = append(f.rec.evs, c17ev{Layer: -1, Kind: "unary", Method: method, Req: req, Reply: reply, Opts: opts, Tag: c17Tag(ctx)})
 	return f.err
 }
 
 func (f *fakeBase) NewStream(ctx context.Context, desc *grpc.StreamDesc, method string, opts ...grpc.CallOption) (grpc.ClientStream, error) {
-	f.rec.evs = append(f.rec.evs, c17ev{Layer: -1, Kind: "stream", Method: method, Desc: desc, Opts: opts})
+	f.rec.evs = append(f.rec.evs, c17ev{Layer: -1, Kind: "stream", Method: method, Desc: desc, Opts: opts, Tag: c17Tag(ctx)})
 	return f.stream, f.err
 }
 
@@ -67,7 +68,7 @@ func sameOpts(a, b []grpc.CallOption) bool {
 
 func checkC17(e *core.Env) {
 	curEnv = e
-	e.SetRule("exhaustive: wrapping depth 1..4 x {unary-only, stream-only, both} interceptors per layer x base channel {recording fake, real *grpc.ClientConn (bufconn), in-process, HTTP} x behaviour {all pass, layer k short-circuits, layer k appends a call option}; every call is judged from the ordered log of instrumented interceptors and the recording base; distinct = distinct configurations")
+	e.SetRule("exhaustive: wrapping depth 1..4 x {unary-only, stream-only, both} interceptors per layer x base channel {recording fake, real *grpc.ClientConn (bufconn), in-process, HTTP} x behaviour {all pass, layer k short-circuits, layer k appends a call option and passes a derived context on}; on the recording base half of the configurations are called with a context that has already ended; every call is judged from the ordered log of instrumented interceptors and the recording base; distinct = distinct configurations")
 	e.SetExhaustive(true)
 	svc := &Service{}
 	ref := NewRef(svc, carrierOpt{})
@@ -141,24 +142,26 @@ func checkC17(e *core.Env) {
 					var si grpc.StreamClientInterceptor
 					if cfg[k].unary {
 						ui = func(ctx context.Context, method string, req, reply interface{}, cc *grpc.ClientConn, invoker grpc.UnaryInvoker, opts ...grpc.CallOption) error {
-							log.evs = append(log.evs, c17ev{Layer: k, Kind: "unary", Method: method, Req: req, Reply: reply, Opts: opts, CC: cc})
+							log.evs = append(log.evs, c17ev{Layer: k, Kind: "unary", Method: method, Req: req, Reply: reply, Opts: opts, CC: cc, Tag: c17Tag(ctx)})
 							if bh.layer == k && bh.what == "short" {
 								return shortErr
 							}
 							if bh.layer == k && bh.what == "alter" {
 								opts = append(append([]grpc.CallOption(nil), opts...), extras[k])
+								ctx = context.WithValue(ctx, c17TagKey{}, fmt.Sprintf("alt@%d", k))
 							}
 							return invoker(ctx, method, req, reply, cc, opts...)
 						}
 					}
 					if cfg[k].stream {
 						si = func(ctx context.Context, desc *grpc.StreamDesc, cc *grpc.ClientConn, method string, streamer grpc.Streamer, opts ...grpc.CallOption) (grpc.ClientStream, error) {
-							log.evs = append(log.evs, c17ev{Layer: k, Kind: "stream", Method: method, Desc: desc, Opts: opts, CC: cc})
+							log.evs = append(log.evs, c17ev{Layer: k, Kind: "stream", Method: method, Desc: desc, Opts: opts, CC: cc, Tag: c17Tag(ctx)})
 							if bh.layer == k && bh.what == "short" {
 								return shortStream, shortErr
 							}
 							if bh.layer == k && bh.what == "alter" {
 								opts = append(append([]grpc.CallOption(nil), opts...), extras[k])
+								ctx = context.WithValue(ctx, c17TagKey{}, fmt.Sprintf("alt@%d", k))
 							}
 							return streamer(ctx, desc, cc, method, opts...)
 						}
@@ -195,6 +198,11 @@ func checkC17(e *core.Env) {
 						ctx = metadata.AppendToOutgoingContext(ctx, runKey, run.ID)
 					}
 					cctx, cancel := context.WithCancel(ctx)
+					if bi == 0 && caseNo%2 == 1 {
+						// a context that has already ended is the wrapped channel's business too: the call still
+						// goes through every layer to the base once and the base's result comes back unchanged
+						cancel()
+					}
 					if kind == "unary" {
 						gotErr = top.Invoke(cctx, method, req, reply, userOpt)
 					} else {
@@ -245,7 +253,11 @@ func checkC17(e *core.Env) {
 					}
 					// arguments seen at each layer
 					wantOpts := []grpc.CallOption{userOpt}
+					wantTag := ""
 					for _, ev := range log.evs {
+						if ev.Tag != wantTag {
+							viol("ctx", fmt.Sprintf("layer %d (-1 = base) saw the context value %q; what the layers above passed on carries %q", ev.Layer, ev.Tag, wantTag))
+						}
 						if ev.Layer == -1 {
 							continue
 						}
@@ -266,6 +278,7 @@ func checkC17(e *core.Env) {
 						}
 						if bh.layer == ev.Layer && bh.what == "alter" {
 							wantOpts = append(append([]grpc.CallOption(nil), wantOpts...), extras[ev.Layer])
+							wantTag = fmt.Sprintf("alt@%d", ev.Layer)
 						}
 					}
 					if bi == 0 {
@@ -326,4 +339,11 @@ func checkC17(e *core.Env) {
 		rec(depth, nil)
 	}
 	e.Sample(map[string]any{"configs": caseNo, "example": "base=grpc.ClientConn layers(inner..outer)=truefalse,falsetrue, behaviour=alter@1: stream call -> hits [1], cc must be the real ClientConn"})
+}
+
+type c17TagKey struct{}
+
+func c17Tag(ctx context.Context) string {
+	t, _ := ctx.Value(c17TagKey{}).(string)
+	return t
 }
